@@ -136,7 +136,6 @@ def lexer_trace():
     def regroup(d):
         p = d["recs"][1]["passes"][9]
         p[0:2] = [p[0] + p[1]]
-        d["recs"][1]["final"] = p
 
     binding("LexerTrace", base, "lex", [("a character added by a pass", lose, ["C04_Lossless"]), ("final chunks regrouped", regroup, ["DRIFT_PassDiffersFromModel", "C04_FinalEqualsCreate"])])
 
